@@ -232,7 +232,7 @@ class Clause:
 
 class LoopSpec:
     def __init__(self, k):
-        self.k = k; self.invariants = []; self.on_exit = []; self.summaries = []; self.uses_end = []; self.uses_base = []; self.decreases = None; self.assigns = None; self.ghost_updates = []; self.uses = []
+        self.k = k; self.invariants = []; self.on_exit = []; self.on_return = []; self.summaries = []; self.uses_end = []; self.uses_base = []; self.decreases = None; self.assigns = None; self.ghost_updates = []; self.uses = []
 
 
 class FuncSpec:
@@ -338,7 +338,7 @@ class SpecDB:
                     w = rest.split(None, 1); head = w[0]; rest = w[1].strip() if len(w) > 1 else ''
                 label = None
                 m = re.match(r'^\[([A-Za-z0-9_.-]+)\]\s*(.*)$', rest)
-                if m and head in ('requires', 'ensures', 'invariant', 'exits_iff', 'on_exit'):
+                if m and head in ('requires', 'ensures', 'invariant', 'exits_iff', 'on_exit', 'on_return'):
                     label = m.group(1); rest = m.group(2)
                 if head == 'source':
                     self.cur_source = rest.strip()
@@ -465,6 +465,9 @@ class SpecDB:
                 elif head == 'on_exit':
                     if loop is None: raise SpecError('on_exit outside loop')
                     loop.on_exit.append(Clause('on_exit', self.expand(parse_expr(rest)), rest, engines, label, ln))
+                elif head == 'on_return':
+                    if loop is None: raise SpecError('on_return outside loop')
+                    loop.on_return.append(Clause('on_return', self.expand(parse_expr(rest)), rest, engines, label, ln))
                 elif head == 'decreases':
                     c = Clause('decreases', self.expand(parse_expr(rest)), rest, engines, label, ln)
                     if loop is not None: loop.decreases = c
